@@ -4,6 +4,7 @@
 package dslbuild
 
 import (
+	"reflect"
 	"encoding/json"
 	"sort"
 	"strings"
@@ -48,6 +49,43 @@ func prim(k string) expr.DataType {
 
 // goVal converts a JSON-decoded spec value to the Go type goa expects for kind.
 func goVal(kind string, v any) any {
+	return goValT(&spec.Type{Kind: kind}, v)
+}
+
+// goValT builds the typed Go value Default() and Enum() expect.
+func goValT(t *spec.Type, v any) any {
+	t = design.Resolve(t)
+	switch t.Kind {
+	case spec.Array:
+		arr, _ := v.([]any)
+		if len(arr) == 0 {
+			return v
+		}
+		first := goValT(t.Elem.Type, arr[0])
+		out := reflect.MakeSlice(reflect.SliceOf(reflect.TypeOf(first)), 0, len(arr))
+		for _, e := range arr {
+			out = reflect.Append(out, reflect.ValueOf(goValT(t.Elem.Type, e)))
+		}
+		return out.Interface()
+	case spec.Map:
+		m, _ := v.(map[string]any)
+		if len(m) == 0 {
+			return v
+		}
+		var out reflect.Value
+		for k, e := range m {
+			ev := goValT(t.Elem.Type, e)
+			if !out.IsValid() {
+				out = reflect.MakeMap(reflect.MapOf(reflect.TypeOf(""), reflect.TypeOf(ev)))
+			}
+			out.SetMapIndex(reflect.ValueOf(k), reflect.ValueOf(ev))
+		}
+		return out.Interface()
+	}
+	return goScalar(t.Kind, v)
+}
+
+func goScalar(kind string, v any) any {
 	if f, ok := v.(float64); ok {
 		switch kind {
 		case spec.Int:
@@ -117,7 +155,7 @@ func validations(a *spec.Attr) {
 		}
 	}
 	if a.HasDef {
-		dsl.Default(goVal(k, a.Default))
+		dsl.Default(goValT(a.Type, a.Default))
 	}
 	if a.View != "" {
 		dsl.View(a.View)
